@@ -49,10 +49,11 @@ type EchoCli struct {
 // S-CONC: n concurrent callers on one client (DESIGN §3 C02).
 func init() {
 	Register(&Scenario{
-		Name:     "conc",
-		LazyToo:  true,
-		DescToo:  true,
-		Property: "C02",
+		Name:        "conc",
+		LazyDescToo: true,
+		LazyToo:     true,
+		DescToo:     true,
+		Property:    "C02",
 		Params: func(tier string) []Param {
 			var ps []Param
 			if tier == "quick" {
